@@ -26,6 +26,9 @@ CONSTANTS
   FeeVals <- MC_FeeVals1
   CostVals <- MC_CostVals1
   MaxVals <- MC_MaxVals
+  Authorizers <- MC_Authorizers
+  AuthTargets <- MC_Targets3
+  OpTargets <- MC_Targets3
   Acts <- ActsAll
   WithInvalid = TRUE
   MaxOps = 2
